@@ -18,7 +18,8 @@ META = {
                    "same element totals exceeds it",
     "bounds": {
         "quick": "split: g canonical disjoint prefix reactions (g=0..3) + 2-3 symbolic pair/triple reactions over <= 7 keys; categorize: 2 "
-                 "reactions x 3 substances coefficients 0..2; equilibria: 3 reactions x 2 substances 0..2; bounds: 16 generated systems",
+                 "reactions x 2 substances, integer coefficients 0..1000; equilibria: 3 reactions x 2 substances and 2 x 3, coefficients 0..1000 "
+                 "(the path structure does not depend on the range: decisions are on signs and equalities); bounds: 16 generated systems",
         "thorough": "split: + 4 symbolic reactions over 5 keys, prefix 3 + 3 symbolic; categorize 3 reactions; bounds: 145 systems",
     },
     "assumptions": [
@@ -821,14 +822,14 @@ def tasks(tier, seed):
         ts.append(dict(id="C15.split.p%d.s%d.a%d.k%d" % (prefix, nsym, arity, nkeys), fn="task_split",
                        kwargs=dict(prefix=prefix, nsym=nsym, arity=arity, nkeys=nkeys, deadline=500 if tier == "quick" else 3000),
                        timeout=900 if tier == "quick" else 4000))
-    ts.append(dict(id="C15.categorize.2rx3", fn="task_categorize", kwargs=dict(nr=2, nkeys=2 if tier == "quick" else 3, hi=2), timeout=900))
+    ts.append(dict(id="C15.categorize.2rx3", fn="task_categorize", kwargs=dict(nr=2, nkeys=2 if tier == "quick" else 3, hi=1000), timeout=900))
     if tier == "thorough":
-        ts.append(dict(id="C15.categorize.3rx2", fn="task_categorize", kwargs=dict(nr=3, nkeys=2, hi=1), timeout=1800))
-    ts.append(dict(id="C15.equilibria.3rx2", fn="task_equilibria", kwargs=dict(nr=3, nkeys=2, hi=1 if tier == "quick" else 2), timeout=900))
-    ts.append(dict(id="C15.equilibria.2rx3", fn="task_equilibria", kwargs=dict(nr=2, nkeys=3, hi=2), timeout=900))
+        ts.append(dict(id="C15.categorize.3rx2", fn="task_categorize", kwargs=dict(nr=3, nkeys=2, hi=1000), timeout=1800))
+    ts.append(dict(id="C15.equilibria.3rx2", fn="task_equilibria", kwargs=dict(nr=3, nkeys=2, hi=1000), timeout=900))
+    ts.append(dict(id="C15.equilibria.2rx3", fn="task_equilibria", kwargs=dict(nr=2, nkeys=3, hi=1000), timeout=900))
     for pi, pres in enumerate([["AB", "ABC"], ["ABC", "AB"], ["AB", "BC"], ["A", "AB", "AB"], ["AB", "A", "ABC"]]):
         ts.append(dict(id="C15.equilibria.presence.%s" % "-".join(pres), fn="task_equilibria",
-                       kwargs=dict(nr=len(pres), nkeys=3, hi=1 if len(pres) == 3 else 2, presence=pres), timeout=900))
+                       kwargs=dict(nr=len(pres), nkeys=3, hi=1000, presence=pres), timeout=1800))
     ts.append(dict(id="C15.subset.3", fn="task_subset", kwargs=dict(nr=3), timeout=300))
     ts.append(dict(id="C15.subset.3.twins", fn="task_subset", kwargs=dict(nr=3, twins=True), timeout=300))
     systems = gen.kin_systems(tier, seed)
